@@ -59,6 +59,7 @@ type Result struct {
 	Points       int64          `json:"choice_points"`
 	States       int64          `json:"distinct_state_keys"`
 	Pruned       int64          `json:"pruned_subtrees"`
+	Aborted      int64          `json:"executions_cut_short"`
 	MaxDepth     int            `json:"max_depth"`
 	MaxTasks     int            `json:"max_tasks"`
 	Outcomes     map[string]int `json:"outcomes"`
@@ -79,6 +80,7 @@ type Result struct {
 type budget struct{ s, f int }
 
 type explorer struct {
+	leftAfter budget // budget left after the prefix of the execution being started
 	cfg   Config
 	res   *Result
 	seen  map[uint64][]budget
@@ -102,6 +104,12 @@ func fnv(ss []string) uint64 {
 
 // RunOne executes the scenario once with the given choice prefix (defaults after it).
 func RunOne(cfg Config, prefix []int, trace bool) *vrt.Execution {
+	return runOne(cfg, prefix, trace, nil)
+}
+
+// runOne: cut, when set, is consulted at the first choice point after the prefix and may
+// abort the execution (its start state was already expanded with at least this budget).
+func runOne(cfg Config, prefix []int, trace bool, cut func(p *vrt.Point) bool) *vrt.Execution {
 	diverged := ""
 	x := vrt.Run(cfg.Root, vrt.Options{
 		Horizon: cfg.Horizon, MaxSteps: cfg.MaxSteps, PoolPoints: cfg.PoolPoints,
@@ -112,6 +120,9 @@ func RunOne(cfg Config, prefix []int, trace bool) *vrt.Execution {
 					diverged = fmt.Sprintf("prefix choice %d=%d but only %d options", i, prefix[i], len(p.Alts))
 				}
 				return prefix[i]
+			}
+			if i == len(prefix) && cut != nil && cut(p) {
+				return vrt.AbortChoice
 			}
 			return 0
 		},
@@ -186,7 +197,19 @@ func (e *explorer) explore(prefix []int, depth int) {
 	if e.capped() {
 		return
 	}
-	x := RunOne(e.cfg, prefix, false)
+	var cut func(p *vrt.Point) bool
+	if len(prefix) > 0 && !e.cfg.NoPrune {
+		cut = func(p *vrt.Point) bool { return e.dominated(p.Key, e.leftAfter) }
+	}
+	x := runOne(e.cfg, prefix, false, cut)
+	if x.Outcome == vrt.OutcomeAborted {
+		e.res.Pruned++
+		e.res.Aborted++
+		e.res.Steps += int64(x.Steps)
+		if len(x.Failures) == 0 {
+			return
+		}
+	}
 	e.res.Executions++
 	e.res.Steps += int64(x.Steps)
 	e.res.Points += int64(len(x.Points))
@@ -219,7 +242,7 @@ func (e *explorer) explore(prefix []int, depth int) {
 		e.res.Exhaustive = false
 		e.res.CapHit = "step cap in an execution (possible livelock): " + x.Detail
 	}
-	if x.Outcome != vrt.OutcomeOK || len(x.Failures) > 0 {
+	if (x.Outcome != vrt.OutcomeOK && x.Outcome != vrt.OutcomeAborted) || len(x.Failures) > 0 {
 		s, f := spent(x, len(x.Points))
 		if len(e.res.Violations) < 20 {
 			e.res.Violations = append(e.res.Violations, Violation{Choices: trim(choices), Outcome: x.Outcome.String(),
@@ -260,6 +283,7 @@ func (e *explorer) explore(prefix []int, depth int) {
 			np := make([]int, i+1)
 			copy(np, choices[:i])
 			np[i] = alt
+			e.leftAfter = budget{e.cfg.Bounds.Sched - ns, e.cfg.Bounds.Fault - nf}
 			e.explore(np, depth+1)
 			if e.stop {
 				return
@@ -308,6 +332,7 @@ func Merge(rs []*Result) *Result {
 		out.Points += r.Points
 		out.States += r.States
 		out.Pruned += r.Pruned
+		out.Aborted += r.Aborted
 		if r.MaxDepth > out.MaxDepth {
 			out.MaxDepth = r.MaxDepth
 		}
